@@ -62,6 +62,7 @@ GenNext ==
         S' = OpNewVector(dep, S, t, n, ch) /\ op' = [o |-> "new", t |-> t, n |-> n, ch |-> ch]
   \/ \E t \in {"A", "B", None, "U"}, n \in {"TXT", "IMG", "LGT", "NOPE", None} :
         S' = OpGetProperties(dep, S, t, n) /\ op' = [o |-> "get", t |-> t, n |-> n]
+  \/ \E v \in {1, 3} : \E x \in Dom(dep.vecs[v].kind) : S' = OpReset(dep, S, v, 1, x) /\ op' = [o |-> "reset", v |-> v, e |-> 1, x |-> x]
   \/ \E v \in {1, 4}, st \in {"Busy", "Ok"} : S' = OpSetState(dep, S, v, st) /\ op' = [o |-> "state", v |-> v, st |-> st]
   \/ \E v \in {1, 6}, b \in BOOLEAN : S' = OpVecEnabled(dep, S, v, b) /\ op' = [o |-> "ven", v |-> v, b |-> b]
   \/ \E g \in {2}, b \in BOOLEAN : S' = OpGroupEnabled(dep, S, g, b) /\ op' = [o |-> "gen", g |-> g, b |-> b]
@@ -79,6 +80,12 @@ P_Frame   == [][op'.o = "new" => FrameOK(dep, S, S', op'.t, op'.n)]_mcvars
 P_Taken   == [][(op'.o = "new" /\ op'.t \in {"A", "B"} /\ VecOf(dep, op'.t, op'.n) # 0 /\ (\A i \in DOMAIN op'.ch : op'.ch[i][3])
                  /\ KindOK(VecOf(dep, op'.t, op'.n), op'.ch) /\ NoVetoOn(VecOf(dep, op'.t, op'.n)) /\ NoReadOn(VecOf(dep, op'.t, op'.n)))
                 => TakenOK(dep, S, S', VecOf(dep, op'.t, op'.n), op'.ch)]_mcvars
+\* outside a write, what a driver publishes is what its elements hold afterwards (plain Read handlers have refreshed them first)
+P_PubCurrent == [][op'.o \in {"state", "get", "ven", "gen", "reset"} =>
+                     \A i \in DOMAIN S'.pub : LET m == S'.pub[i] IN
+                        (m.v # 0 /\ (m.t = "set" \/ (m.t = "def" /\ dep.vecs[m.v].kind # "blob"))) =>
+                           \A k \in DOMAIN m.els : \A e \in DOMAIN dep.vecs[m.v].elems :
+                              dep.vecs[m.v].elems[e] = m.els[k][1] => m.els[k][2] = S'.val[m.v][e]]_mcvars
 P_Robust  == [][op'.o \in {"new", "get", "task"} => ~S'.raised]_mcvars
 P_Reply   == [][op'.o = "get" => ReplyExact(dep, S, S', op'.t, op'.n)]_mcvars
 P_Write   == [][(op'.o \in {"assign", "setvalue"} /\ NoReadOn(op'.v)) => WriteContract(dep, S, S', op'.v, op'.e, op'.x, op'.o = "setvalue")]_mcvars
